@@ -6,6 +6,7 @@ import hashlib
 import random
 import time
 
+from . import balance_engine  # noqa: F401  (registers op_balance)
 from . import histories, kernel, seams
 from .runner import derive_seed
 
@@ -26,6 +27,8 @@ PROPS = {
                 level="exploration", faults=True, batch=10),
     "C01": dict(engine="store", gen="gen_c01", nops=(2, 7), runs={"quick": 800, "thorough": 16000},
                 level="exploration", faults=True, batch=10),
+    "C11": dict(engine="store", gen="gen_c11", nops=(2, 4), runs={"quick": 256, "thorough": 5000},
+                level="exploration", batch=4, timeout=600, continue_after_violation=True),
     "C13": dict(engine="store", special="c13", nops=(1, 1), runs={"quick": 96, "thorough": 1600},
                 level="fault_enumeration", batch=2, timeout=900),
     "C02": dict(engine="store", gen="gen_c02", nops=(3, 9), runs={"quick": 560, "thorough": 10000},
@@ -107,7 +110,8 @@ def execute_store(spec, scratch, t0):
             c13.run(run, rng, cfg, spec["tier"])
         else:
             gen_next = getattr(histories, cfg["gen"])
-            run.run_online(rng, gen_next, swarm["nops"], cfg)
+            run.run_online(rng, gen_next, swarm["nops"], cfg,
+                           stop_on_violation=not cfg.get("continue_after_violation"))
     finally:
         kernel.deactivate()
     viol = run.violations
@@ -152,6 +156,8 @@ def nontrivial(prop, run):
         return st.get("op:zoomify", 0) > 0
     if prop == "C17":
         return st.get("op:scool", 0) > 0
+    if prop == "C11":
+        return st.get("balance-configs", 0) > 0 and st.get("balance-reference-finite", 0) > 0
     if prop == "C18":
         return st.get("op:rename", 0) > 0
     return True
